@@ -401,6 +401,17 @@ pub fn run(tier: Tier) -> i32 {
             stats.fail(&case, f);
         }
     }
+    // namespace URIs that need escaping in a declaration, declared and undeclared (the repair then writes them)
+    for u in ["u&v", "u<v", "u\"v", "u'v", "u\tv", "u\nv", "u v"] {
+        for t in [A::el(u, "a").decl("p", u), A::el(u, "a").decl("", u), A::el(u, "a"), A::el("", "a").attr(u, "k", "v"), A::el("", "a").child(A::el(u, "b").attr(u, "k", "v"))] {
+            let case = Case::Layout { tree: t, placement: 0 };
+            let fails = eval_case(&case, &mut stats);
+            stats.bump("uri_cases");
+            for f in fails {
+                stats.fail(&case, f);
+            }
+        }
+    }
     // element-less and multi-element fragments through create_missing_prefixes
     for f in [A::doc(vec![]), A::doc(vec![A::text("t")]), A::doc(vec![A::el(X, "a"), A::el(Y, "b")]), A::doc(vec![A::comment("c"), A::el(X, "a"), A::text("t"), A::el(X, "b").attr(Y, "k", "1")])] {
         let mut fails = vec![];
